@@ -10,6 +10,7 @@ import (
 	"fmt"
 	"io"
 	"strings"
+	"sync"
 
 	smscodec "github.com/hujm2023/go-sms-protocol/codec"
 )
@@ -148,8 +149,131 @@ func mkFrame(g *Rng, n int) []byte {
 	return f
 }
 
+// turnTaker lets two goroutines take strict turns: every Read of one connection is followed by a Read of the
+// other (as long as the other still reads), whatever the Go scheduler does
+type turnTaker struct {
+	mu   sync.Mutex
+	cond *sync.Cond
+	turn int
+	done [2]bool
+}
+
+func (t *turnTaker) enter(i int) {
+	t.mu.Lock()
+	for t.turn != i && !t.done[1-i] {
+		t.cond.Wait()
+	}
+	t.mu.Unlock()
+}
+
+func (t *turnTaker) leave(i int) {
+	t.mu.Lock()
+	if !t.done[1-i] {
+		t.turn = 1 - i
+	}
+	t.cond.Broadcast()
+	t.mu.Unlock()
+}
+
+func (t *turnTaker) finish(i int) {
+	t.mu.Lock()
+	t.done[i] = true
+	t.turn = 1 - i
+	t.cond.Broadcast()
+	t.mu.Unlock()
+}
+
+type turnConn struct {
+	fakeConn
+	t  *turnTaker
+	id int
+}
+
+func (c *turnConn) Read(p []byte) (int, error) {
+	c.t.enter(c.id)
+	defer c.t.leave(c.id)
+	return c.fakeConn.Read(p)
+}
+
+func renderBlockedAll(rs []string) string { return strings.Join(rs, ";") }
+
+// blockedAllAlone drains one stream with repeated DecodeBlocked, no other connection in sight
+func blockedAllAlone(cd smscodec.Codec, data []byte) string {
+	c := &fakeConn{future: append([]byte(nil), data...), maxRead: 0, endErr: io.EOF}
+	var rs []string
+	for k := 0; k < 64; k++ {
+		var f []byte
+		var err error
+		o := GuardDeadline(decodeDeadline, func() { f, err = cd.DecodeBlocked(c) })
+		if o.Hang || o.Panic != "" {
+			rs = append(rs, "panic")
+			break
+		}
+		if err != nil {
+			kind := "badprefix"
+			switch {
+			case errors.Is(err, io.ErrUnexpectedEOF):
+				kind = "ueof"
+			case errors.Is(err, io.EOF):
+				kind = "eof"
+			}
+			rs = append(rs, "err "+kind)
+			break
+		}
+		rs = append(rs, "ok "+hx(f))
+	}
+	return renderBlockedAll(rs)
+}
+
+// goPair serves two connections with ONE codec value, their reads strictly alternating, each connection drained by
+// repeated DecodeBlocked until the first error; the rendering is that of the two streams served alone
+func goPair(cd smscodec.Codec, a, b []byte, mrA, mrB, start int) string {
+	t := &turnTaker{turn: start}
+	t.cond = sync.NewCond(&t.mu)
+	conns := [2]*turnConn{
+		{fakeConn: fakeConn{future: append([]byte(nil), a...), maxRead: mrA, endErr: io.EOF}, t: t, id: 0},
+		{fakeConn: fakeConn{future: append([]byte(nil), b...), maxRead: mrB, endErr: io.EOF}, t: t, id: 1},
+	}
+	var out [2][]string
+	o := GuardDeadline(decodeDeadline, func() {
+		var wg sync.WaitGroup
+		for i := 0; i < 2; i++ {
+			wg.Add(1)
+			go func(i int) {
+				defer wg.Done()
+				defer t.finish(i)
+				defer func() {
+					if r := recover(); r != nil {
+						out[i] = append(out[i], "panic")
+					}
+				}()
+				for k := 0; k < 64; k++ {
+					f, err := cd.DecodeBlocked(conns[i])
+					if err != nil {
+						kind := "badprefix"
+						switch {
+						case errors.Is(err, io.ErrUnexpectedEOF):
+							kind = "ueof"
+						case errors.Is(err, io.EOF):
+							kind = "eof"
+						}
+						out[i] = append(out[i], "err "+kind)
+						return
+					}
+					out[i] = append(out[i], "ok "+hx(f))
+				}
+			}(i)
+		}
+		wg.Wait()
+	})
+	if o.Hang {
+		return "hang"
+	}
+	return "A=" + renderBlockedAll(out[0]) + " B=" + renderBlockedAll(out[1])
+}
+
 func runC04(res *Result, d *Driver, g *Rng, tier string) {
-	res.Rule = "streams of 1..6 frames (lengths 4..64 KiB, bodies containing prefix-like octets) plus an incomplete tail, cut into arrival chunks: every single cut position and (for streams <= 24 octets) every pair of cuts exhaustively, random multi-cut otherwise, one octet at a time; blocking extractor: every truncation point, read error at every offset, reads of 1..n octets; malformed prefixes 0..3 and declared lengths up to 2^32-1 with only a few octets arrived, for both extractors and both codecs; non-trivial = distinct (stream, chunking)"
+	res.Rule = "streams of 1..6 frames (lengths 4..64 KiB, bodies containing prefix-like octets) plus an incomplete tail, cut into arrival chunks: every single cut position and (for streams <= 24 octets) every pair of cuts exhaustively, random multi-cut otherwise, one octet at a time; blocking extractor: every truncation point, read error at every offset, reads of 1..n octets; malformed prefixes 0..3 and declared lengths up to 2^32-1 with only a few octets arrived, for both extractors and both codecs; two connections behind one codec value with strictly alternating reads of 1..5 octets (prefixes differing in every octet position); non-trivial = distinct (stream, chunking)"
 	thorough := tier == "thorough"
 	var ops, goOut []string
 	check := func(cname string, stream []byte, frames [][]byte, tailLen int, cuts []int, viaModel bool) {
@@ -324,6 +448,44 @@ func runC04(res *Result, d *Driver, g *Rng, tier string) {
 			}
 		}
 	}
+	// two connections behind one codec value (the usual deployment: one codec per server), reads strictly
+	// alternating: each stream must come out as if it were served alone.  Frame lengths are chosen so that the
+	// prefixes differ in every octet position, reads of 1..3 octets split the prefix at every place.
+	mk := func(n int, tag byte) []byte {
+		f := make([]byte, n)
+		binary.BigEndian.PutUint32(f, uint32(n))
+		for i := 4; i < n; i++ {
+			f[i] = tag ^ byte(i*7)
+		}
+		return f
+	}
+	streamsA := [][]byte{append(mk(16, 0xA0), mk(16, 0xA1)...), append(mk(20, 0xA2), mk(4, 0)...), append(mk(0x0101, 0xA3), mk(17, 0xA4)...)}
+	streamsB := [][]byte{append(mk(288, 0xB0), mk(300, 0xB1)...), append(mk(0x010110, 0xB2), mk(16, 0xB3)...), append(mk(0x1010, 0xB4), mk(0x0203, 0xB5)[:100]...)}
+	for _, cname := range []string{"cmpp", "smpp"} {
+		for ai, a := range streamsA {
+			for bi, b := range streamsB {
+				for _, mrA := range []int{1, 2, 3, 5} {
+					for _, mrB := range []int{1, 2, 3, 0} {
+						for start := 0; start < 2; start++ {
+							if !thorough && (ai+bi+mrA+mrB+start)%3 != 0 {
+								continue
+							}
+							op := fmt.Sprintf("frame pair %s %s %d %d %d", hx(a), hx(b), mrA, mrB, start)
+							got := goPair(codecs[cname], a, b, mrA, mrB, start)
+							res.Eval(cname+"/"+op[:40]+fmt.Sprint(ai, bi, mrA, mrB, start), true)
+							alone := "A=" + blockedAllAlone(codecs[cname], a) + " B=" + blockedAllAlone(codecs[cname], b)
+							if got != alone {
+								res.Violate("C04.connections-interfere:"+cname, fmt.Sprintf("two connections served by one codec value, reads alternating (%d and %d octets per read): the streams do not come out as when served alone", mrA, mrB), []string{"codec " + cname, op})
+							}
+							if (ai+bi+mrA+mrB)%4 == 0 {
+								ops, goOut = append(ops, op), append(goOut, got)
+							}
+						}
+					}
+				}
+			}
+		}
+	}
 	res.Sample(ops[0] + "  =>  " + goOut[0])
 	res.Sample(ops[len(ops)-1] + "  =>  " + goOut[len(ops)-1])
 	res.Compare(d, "framing model vs codec.CMPPCodec/SMPPCodec", ops, goOut)
@@ -345,6 +507,12 @@ func replayC04(lines []string) []string {
 			}
 			del, b, cl, note := goRun(codecs[cname], chunks)
 			out = append(out, renderRun(del, b, cl)+" "+note)
+		case len(f) == 7 && f[0] == "frame" && f[1] == "pair":
+			var mrA, mrB, start int
+			fmt.Sscan(f[4], &mrA)
+			fmt.Sscan(f[5], &mrB)
+			fmt.Sscan(f[6], &start)
+			out = append(out, goPair(codecs[cname], unhx(f[2]), unhx(f[3]), mrA, mrB, start))
 		case len(f) == 4 && f[0] == "frame" && f[1] == "blocked":
 			o, _, _ := goBlocked(codecs[cname], unhx(f[2]), f[3] == "1", 3)
 			out = append(out, o)
